@@ -66,6 +66,7 @@ type recorder struct {
 	cells   map[*Cell]bool
 	heap    map[string]bool
 	all     bool
+	keep    []string // heap-name prefixes every whole-heap havoc in the loop preserved
 	fi      int
 	blocks  map[*ssa.BasicBlock]bool
 	header  *ssa.BasicBlock
@@ -82,9 +83,22 @@ func (x *Exec) recHeap(name string) {
 		r.heap[name] = true
 	}
 }
-func (x *Exec) recAll() {
+func (x *Exec) recAll(except []string) {
 	for _, r := range x.recs {
-		r.all = true
+		if !r.all {
+			r.all = true
+			r.keep = append([]string(nil), except...)
+			continue
+		}
+		var both []string
+		for _, a := range r.keep {
+			for _, b := range except {
+				if a == b {
+					both = append(both, a)
+				}
+			}
+		}
+		r.keep = both
 	}
 }
 
@@ -220,13 +234,13 @@ func (x *Exec) loopEnter(st *State, fi int, li *loopInfo, from *ssa.BasicBlock) 
 		x.recHeap(h)
 	}
 	if rec.all {
-		x.recAll()
+		x.recAll(rec.keep)
 	}
 	// 3. havoc
 	preHeap := copyHeap(st.heap)
 	preEpoch := st.epoch
 	if rec.all {
-		x.havocAll(st, nil)
+		x.havocAll(st, rec.keep)
 	}
 	var cells []*Cell
 	for c := range rec.cells {
@@ -463,11 +477,11 @@ func (x *Exec) resolveModifies(st *State, env *Env, item string, out map[string]
 		if !ok {
 			env.fail("mapof() of non-map")
 		}
-		ks, vs := x.sortOf(mt.Key()), x.sortOf(mt.Elem())
 		x.mapArrs(st, env.heap, env.epoch, mt)
-		out["MD$"+ks] = append(out["MD$"+ks], v.T)
-		out["MV$"+ks+"$"+vs] = append(out["MV$"+ks+"$"+vs], v.T)
-		out["MC"] = append(out["MC"], v.T)
+		dn, vn, cn := x.mapNames(mt)
+		out[dn] = append(out[dn], v.T)
+		out[vn] = append(out[vn], v.T)
+		out[cn] = append(out[cn], v.T)
 	default:
 		if _, ok := x.ghostVars[item]; ok {
 			out["G$"+item] = nil
@@ -516,7 +530,7 @@ func (x *Exec) resolveModifies(st *State, env *Env, item string, out map[string]
 
 // havocAll forgets the whole heap except arrays with the given name prefixes.
 func (x *Exec) havocAll(st *State, except []string) {
-	x.recAll()
+	x.recAll(except)
 	keep := map[string]Term{}
 	// ghost state (effect log, ghost variables) is only ever changed by ghost
 	// statements and emits clauses, never by unknown code
@@ -528,7 +542,12 @@ func (x *Exec) havocAll(st *State, except []string) {
 			}
 		}
 	}
+	prev := st.epoch
 	st.epoch = x.nextEpoch()
+	// arrays kept across this havoc but not touched yet resolve to their
+	// pre-havoc version (see heapInit)
+	x.epochPrev[st.epoch] = prev
+	x.epochKeep[st.epoch] = except
 	st.heap = keep
 	n := x.decls.Fresh("now", "Int")
 	st.assume(Le(st.now, n))
